@@ -398,6 +398,13 @@ func main() {
 				evals = append(evals, evalT{"whole/" + e, im.Whole[e], m, top})
 			}
 		}
+		// the model runs the initialisers of a text in the order written; a text in which an initialiser
+		// names a variable declared later in the same text is reordered by the interpreter (C15's
+		// subject): no prediction there. The generator does not produce such texts.
+		unmodelled := ans["fwdvar"] == "1"
+		if unmodelled {
+			run.Hit("unmodelled:forward-dependency-between-initialisers")
+		}
 		// validation of the model's reading of the program against the toolchain
 		specOK := true
 		if c.Kind == "prog" {
@@ -407,13 +414,6 @@ func main() {
 			}
 		}
 
-		// the model runs the initialisers of a text in the order written; a text in which an initialiser
-		// names a variable declared later in the same text is reordered by the interpreter (C15's
-		// subject): no prediction there. The generator does not produce such texts.
-		unmodelled := ans["fwdvar"] == "1"
-		if unmodelled {
-			run.Hit("unmodelled:forward-dependency-between-initialisers")
-		}
 		known := i < nKnown
 		stillFails := false
 		detail := ""
